@@ -288,7 +288,7 @@ theorem runCore_inv2 (p : Program) (ff0 : Bool) (hwf : wf p = true) : Inv2 p (ru
     exact wf_attrs p hwf
   · intro st s _ h _; exact h.stage st _
   · intro s c rest _ h hs; exact h.pop c rest hs
-  · intro s _ h _ _ _
+  · intro s _ h _ _
     exact ⟨by rw [got_attrs]; exact h.keys, fun k => by rw [got_attrs, got_stack']; exact h.undo k,
       by rw [got_ran, got_regd, got_stack']; exact h.once⟩
 
